@@ -135,7 +135,16 @@ RECURSIVE Eval(_, _, _), EvalList(_, _, _, _, _), EvalListRTL(_, _, _, _, _), Ca
           ExecForIn(_, _, _, _, _)
 
 Builtins == {"println", "print", "array_length", "at", "array_set", "array_push", "array_pop",
-             "str_length", "int_to_string", "abs", "min", "max", "str_concat", "str_equals"}
+             "str_length", "int_to_string", "abs", "min", "max", "str_concat", "str_equals",
+             "str_substring", "str_contains", "char_at", "string_from_char", "string_to_int"}
+\* printable ASCII, code 32 .. 126 (the corpus only uses these characters)
+Ascii == " !\"#$%&'()*+,-./0123456789:;<=>?@ABCDEFGHIJKLMNOPQRSTUVWXYZ[\\]^_`abcdefghijklmnopqrstuvwxyz{|}~"
+CharCode(c) == LET hits == {k \in 1..Len(Ascii) : SubSeq(Ascii, k, k) = c} IN IF hits = {} THEN 0 ELSE 31 + CHOOSE k \in hits : TRUE
+Contains(h, n) == n = "" \/ \E k \in 1..(Len(h) - Len(n) + 1) : SubSeq(h, k, k + Len(n) - 1) = n
+IsDigitStr(x) == x # "" /\ \A k \in 1..Len(x) : CharCode(SubSeq(x, k, k)) >= 48 /\ CharCode(SubSeq(x, k, k)) <= 57
+RECURSIVE ParseU(_, _, _)
+ParseU(x, k, acc) == IF k > Len(x) THEN acc
+                     ELSE ParseU(x, k + 1, I64Add(I64Mul(acc, <<0, 0, 0, 10>>), <<0, 0, 0, CharCode(SubSeq(x, k, k)) - 48>>))
 
 \* arguments strictly left to right (SPECIFICATION 4.9)
 EvalList(C, es, k, acc, st) ==
@@ -313,6 +322,29 @@ Builtin(C, name, vs, st) ==
      [] name = "str_equals" ->
             IF n # 2 \/ vs[1].t # "str" \/ vs[2].t # "str" THEN RV(VVoid, Fault(st, "stuck:type"))
             ELSE RV(VBool(vs[1].s = vs[2].s), st)
+     [] name = "str_substring" ->       \* (s, start, len): clamped to the string (INFERRED from both backends); negative arguments unspecified
+            IF n # 3 \/ vs[1].t # "str" \/ vs[2].t # "int" \/ vs[3].t # "int" THEN RV(VVoid, Fault(st, "stuck:type"))
+            ELSE IF I64IsNeg(vs[2].i) \/ I64IsNeg(vs[3].i) \/ ~I64IsSmall(vs[2].i) \/ ~I64IsSmall(vs[3].i) THEN RV(VVoid, Fault(st, "unspecified:substring"))
+            ELSE LET a == I64ToInt(vs[2].i)  l == I64ToInt(vs[3].i)  L == Len(vs[1].s) IN
+                 RV(VStr(IF a >= L THEN "" ELSE SubSeq(vs[1].s, a + 1, IF a + l > L THEN L ELSE a + l)), st)
+     [] name = "str_contains" ->
+            IF n # 2 \/ vs[1].t # "str" \/ vs[2].t # "str" THEN RV(VVoid, Fault(st, "stuck:type"))
+            ELSE RV(VBool(Contains(vs[1].s, vs[2].s)), st)
+     [] name = "char_at" ->
+            IF n # 2 \/ vs[1].t # "str" \/ vs[2].t # "int" THEN RV(VVoid, Fault(st, "stuck:type"))
+            ELSE IF I64IsNeg(vs[2].i) \/ ~I64IsSmall(vs[2].i) \/ I64ToInt(vs[2].i) >= Len(vs[1].s) THEN RV(VVoid, Fault(st, "unspecified:char_at"))
+            ELSE RV(VInt(I64FromNat(CharCode(SubSeq(vs[1].s, I64ToInt(vs[2].i) + 1, I64ToInt(vs[2].i) + 1)))), st)
+     [] name = "string_from_char" ->
+            IF n # 1 \/ vs[1].t # "int" THEN RV(VVoid, Fault(st, "stuck:type"))
+            ELSE IF ~I64IsSmall(vs[1].i) \/ I64ToInt(vs[1].i) < 32 \/ I64ToInt(vs[1].i) > 126 THEN RV(VVoid, Fault(st, "unspecified:char"))
+            ELSE RV(VStr(SubSeq(Ascii, I64ToInt(vs[1].i) - 31, I64ToInt(vs[1].i) - 31)), st)
+     [] name = "string_to_int" ->
+            IF n # 1 \/ vs[1].t # "str" THEN RV(VVoid, Fault(st, "stuck:type"))
+            ELSE LET x == vs[1].s
+                     neg == Len(x) > 1 /\ SubSeq(x, 1, 1) = "-"
+                     d == IF neg THEN SubSeq(x, 2, Len(x)) ELSE x IN
+                 IF ~IsDigitStr(d) \/ Len(d) > 18 THEN RV(VVoid, Fault(st, "unspecified:string_to_int"))
+                 ELSE RV(VInt(IF neg THEN I64Neg(ParseU(d, 1, I64Zero)) ELSE ParseU(d, 1, I64Zero)), st)
      [] name = "int_to_string" ->
             IF n # 1 \/ vs[1].t # "int" THEN RV(VVoid, Fault(st, "stuck:type"))
             ELSE RV(VStr(Dec(vs[1].i)), st)
